@@ -234,6 +234,39 @@ func verifC17Server(version int64) *verifC17Srv {
 
 const verifC17Marker = "X-Verif-Handler-Marker"
 
+// mirrors live_observable of the model: what a net/http server can put on the wire at all
+func verifC17LiveObservable(r *conformancev1.RawHTTPResponse) bool {
+	st := r.StatusCode
+	if !(st == 0 || st >= 200 && st <= 999) {
+		return false
+	}
+	if st != 204 && st != 304 {
+		return true
+	}
+	switch b := r.Body.(type) {
+	case nil:
+	case *conformancev1.RawHTTPResponse_Unary:
+		if b.Unary != nil {
+			return false
+		}
+	case *conformancev1.RawHTTPResponse_Stream:
+		if len(b.Stream.GetItems()) > 0 {
+			return false
+		}
+	}
+	if len(r.Trailers) > 0 {
+		return false
+	}
+	if st == 304 {
+		for _, h := range r.Headers {
+			if k := textproto.CanonicalMIMEHeaderKey(h.Name); k == "Content-Type" || k == "Content-Length" {
+				return false
+			}
+		}
+	}
+	return true
+}
+
 func verifC17Envelope(msgs ...proto.Message) []byte {
 	var out []byte
 	for _, m := range msgs {
@@ -260,6 +293,9 @@ func verifC17Live(args []vsx) vsx {
 	var raw *conformancev1.RawHTTPResponse
 	if len(args[3].l) == 1 {
 		raw = verifC17Resp(args[3].l[0])
+	}
+	if raw != nil && !verifC17LiveObservable(raw) {
+		return vL(vS("bad-case"))
 	}
 	marker := []*conformancev1.Header{{Name: verifC17Marker, Value: []string{"1"}}}
 	unaryDef := &conformancev1.UnaryResponseDefinition{
